@@ -110,6 +110,17 @@ class World:
                 f_ = Func(defs[name], self.env, self.it)
                 self.env[name] = f_
                 return f_
+            # names the module imports from the type system (`types`, `lca_type`, ..): the interpreted type functions
+            tgt = module.imports.get(name, "")
+            if types_env is not None and tgt:
+                if tgt.endswith("tree.types"):
+                    from .typefns import LazyNS
+
+                    self.env[name] = LazyNS(dict(types_env))
+                    return self.env[name]
+                if ".tree.types." in tgt and tgt.rsplit(".", 1)[1] in types_env:
+                    self.env[name] = types_env[tgt.rsplit(".", 1)[1]]
+                    return self.env[name]
             raise KeyError(name)
 
         self.it.global_resolver = resolve
